@@ -97,3 +97,12 @@ def _has_global(it, name):
         return True
     except Exception:
         return False
+
+
+def mask_interp(extra=None):
+    from vfw.models import voxels
+    g = base_globals()
+    it = Interp("cryomask", g)
+    if extra:
+        it.globals.update(extra)
+    return it
